@@ -132,7 +132,42 @@ fn op_sd(kind: &str, name: String) {
     }
 }
 
+type Worker = (std::sync::mpsc::Sender<String>, std::sync::mpsc::Receiver<String>);
+
+fn workers() -> &'static std::sync::Mutex<std::collections::HashMap<String, Worker>> {
+    static W: std::sync::OnceLock<std::sync::Mutex<std::collections::HashMap<String, Worker>>> = std::sync::OnceLock::new();
+    W.get_or_init(|| std::sync::Mutex::new(std::collections::HashMap::new()))
+}
+
+// `@t/OP`: run OP on the persistent worker thread named t (created on first use) and wait for it
+fn run_on_worker(t: &str, op: &str) -> String {
+    let mut ws = workers().lock().unwrap();
+    if !ws.contains_key(t) {
+        let (tx_op, rx_op) = std::sync::mpsc::channel::<String>();
+        let (tx_res, rx_res) = std::sync::mpsc::channel::<String>();
+        std::thread::Builder::new().stack_size(2 * 1024 * 1024).spawn(move || {
+            hist::INLINE.with(|f| f.set(true));
+            while let Ok(op) = rx_op.recv() {
+                let r = guarded(|| run_op(&op));
+                if tx_res.send(r).is_err() { break; }
+            }
+        }).unwrap();
+        ws.insert(t.to_string(), (tx_op, rx_res));
+    }
+    let (tx, rx) = ws.get(t).unwrap();
+    if tx.send(op.to_string()).is_err() { return "PANIC".to_string(); }
+    match rx.recv_timeout(std::time::Duration::from_millis(hist::WATCHDOG_MS)) {
+        Ok(r) => r,
+        Err(_) => { DEAD.store(true, std::sync::atomic::Ordering::SeqCst); "DEADLOCK".to_string() }
+    }
+}
+
 fn run_op(op: &str) -> String {
+    if let Some(rest) = op.strip_prefix('@') {
+        if let Some((t, inner)) = rest.split_once('/') {
+            return run_on_worker(t, inner);
+        }
+    }
     let parts: Vec<&str> = op.split(':').collect();
     match parts.as_slice() {
         ["LEX", h] => op_lex(&unhex(h)),
@@ -163,6 +198,61 @@ fn run_op(op: &str) -> String {
             if dead { DEAD.store(true, std::sync::atomic::Ordering::SeqCst); }
             r
         }
+        ["CONV", ty, num] => guarded(|| {
+            let neg = num.starts_with('-');
+            let mag = u128::from_str_radix(num.trim_start_matches('-'), 16).unwrap();
+            let i = |m: u128| -> i128 { if neg { (m as i128).wrapping_neg() } else { m as i128 } };
+            let v = match *ty {
+                "i8" => Value::from(i(mag) as i8), "i16" => Value::from(i(mag) as i16), "i32" => Value::from(i(mag) as i32),
+                "i64" => Value::from(i(mag) as i64), "i128" => Value::from(i(mag)),
+                "u8" => Value::from(mag as u8), "u16" => Value::from(mag as u16), "u32" => Value::from(mag as u32),
+                "u64" => Value::from(mag as u64), "u128" => Value::from(mag),
+                _ => panic!("bad type"),
+            };
+            format!("OK:{}", hist::pr_value(&v))
+        }),
+        ["CONVF", ty, bits] => guarded(|| {
+            let b = u64::from_str_radix(bits, 16).unwrap();
+            let v = if *ty == "f32" { Value::from(f32::from_bits(b as u32)) } else { Value::from(f64::from_bits(b)) };
+            let back = v.clone().float().map(|x| format!("{:x}", x.to_bits())).unwrap_or("ERR".to_string());
+            format!("OK:{}:{}", hist::pr_value(&v), back)
+        }),
+        ["ACC", which, ..] => guarded(|| {
+            let vt = op.splitn(3, ':').nth(2).unwrap_or("N");
+            let v = hist::p_value(&mut hist::Cur::new(vt));
+            match *which {
+                "integer" => v.integer().map(|z| if z < 0 { format!("OK:-{:x}", (z as i128).unsigned_abs()) } else { format!("OK:{:x}", z) }).unwrap_or("ERR".to_string()),
+                "decimal" => v.decimal().map(|d| format!("OK:{}", pr_dec(&d))).unwrap_or("ERR".to_string()),
+                "string" => v.string().map(|s| format!("OK:{}", hex(&s))).unwrap_or("ERR".to_string()),
+                "bool" => v.bool().map(|b| format!("OK:{}", if b { 1 } else { 0 })).unwrap_or("ERR".to_string()),
+                "list" => v.list().map(|l| format!("OK:{}", hist::pr_value(&Value::List(l)))).unwrap_or("ERR".to_string()),
+                "float" => v.float().map(|x| format!("OK:{:x}", x.to_bits())).unwrap_or("ERR".to_string()),
+                _ => "?".to_string(),
+            }
+        }),
+        ["RTV", ..] => guarded(|| {
+            // From<String>/From<&str>/From<bool>/From<Decimal>/From<Vec<Value>> then the matching accessor
+            let vt = op.splitn(2, ':').nth(1).unwrap_or("N");
+            let v = hist::p_value(&mut hist::Cur::new(vt));
+            let r = match v {
+                Value::String(s) => { let a = Value::from(s.clone()).string(); let b = Value::from(s.as_str()).string();
+                                      match (a, b) { (Ok(x), Ok(y)) if x == y => Value::String(x), _ => return "ERR".to_string() } }
+                Value::Bool(b) => match Value::from(b).bool() { Ok(x) => Value::Bool(x), _ => return "ERR".to_string() },
+                Value::Number(d) => match Value::from(d).decimal() { Ok(x) => Value::Number(x), _ => return "ERR".to_string() },
+                Value::List(l) => match Value::from(l).list() { Ok(x) => Value::List(x), _ => return "ERR".to_string() },
+                other => other,
+            };
+            format!("OK:{}", hist::pr_value(&r))
+        }),
+        ["PROBE", stage, ms] => {
+            // park the initialising thread for `ms` milliseconds when it reaches init stage `stage`
+            let stage: u8 = stage.parse().unwrap();
+            let ms: u64 = ms.parse().unwrap();
+            verif_hooks::set_init_probe(Some(Arc::new(move |k| {
+                if k == stage { std::thread::sleep(std::time::Duration::from_millis(ms)); }
+            })));
+            "-".to_string()
+        }
         ["CD", c] => guarded(|| hist::pr_ctx(c.parse().unwrap())),
         ["SD", kind, name] => {
             op_sd(kind, unhex(name));
@@ -175,7 +265,7 @@ fn run_op(op: &str) -> String {
 static DEAD: std::sync::atomic::AtomicBool = std::sync::atomic::AtomicBool::new(false);
 
 fn needs_fresh_process(ops: &[&str]) -> bool {
-    ops.iter().any(|o| o.starts_with("REG") || o.starts_with("SD:") || o.starts_with("H:") || o.starts_with("CF:"))
+    ops.iter().any(|o| o.starts_with("REG") || o.starts_with("SD:") || o.starts_with("H:") || o.starts_with("CF:") || *o == "||" || o.starts_with("PROBE") || o.starts_with("@"))
 }
 
 fn run_line_here(line: &str) -> String {
@@ -187,11 +277,34 @@ fn run_line_here(line: &str) -> String {
     let id = it.next().unwrap_or("");
     let ops: Vec<&str> = it.collect();
     let mut res: Vec<String> = Vec::new();
-    for o in ops.iter() {
+    let split = ops.iter().position(|o| *o == "||");
+    let (seq_ops, par_ops): (&[&str], &[&str]) = match split {
+        Some(i) => (&ops[..i], &ops[i + 1..]),
+        None => (&ops[..], &[]),
+    };
+    for o in seq_ops.iter() {
         if DEAD.load(std::sync::atomic::Ordering::SeqCst) {
             res.push("SKIP".to_string());
         } else {
             res.push(guarded(|| run_op(o)));
+        }
+    }
+    if split.is_some() {
+        res.push("||".to_string());
+        hist::PARALLEL.store(true, std::sync::atomic::Ordering::SeqCst);
+        // every op after `||` runs on its own thread, released together
+        let barrier = Arc::new(std::sync::Barrier::new(par_ops.len()));
+        let mut handles = Vec::new();
+        for o in par_ops.iter() {
+            let o = o.to_string();
+            let b = barrier.clone();
+            handles.push(std::thread::Builder::new().stack_size(2 * 1024 * 1024).spawn(move || {
+                b.wait();
+                guarded(|| run_op(&o))
+            }).unwrap());
+        }
+        for h in handles {
+            res.push(h.join().unwrap_or_else(|_| "PANIC".to_string()));
         }
     }
     format!("{} {}", id, res.join(" "))
